@@ -135,6 +135,12 @@ func Exec(st Step, pool []*modeling.Mesh) (res modeling.Mesh, hasRes bool, ok bo
 		}
 		return *pool[st.Src[k]-1]
 	}
+	// the live value itself, for entry points that take the mesh BY ADDRESS (gltf.PolyformModel.Mesh):
+	// a library that writes through that pointer changes the caller's mesh, which a copy would hide
+	live := func(k int) *modeling.Mesh {
+		_ = src(k)
+		return pool[st.Src[k]-1]
+	}
 	ok = true
 	hasRes = true
 	switch st.Op {
@@ -253,7 +259,7 @@ func Exec(st Step, pool []*modeling.Mesh) (res modeling.Mesh, hasRes bool, ok bo
 		res = misc(src(0), st.i("kind"), st.i("k"))
 	case "Export":
 		hasRes = false
-		export(src(0), st.str("fmt"))
+		export(live(0), st.str("fmt"))
 	case "Scan":
 		hasRes = false
 		scan(src(0))
@@ -338,8 +344,9 @@ func filterGE(m modeling.Mesh, ar int, name string, thr float64) modeling.Mesh {
 	return meshops.FilterFloat4(m, name, func(v vector4.Float64) bool { return v.X() >= thr })
 }
 
-func export(m modeling.Mesh, format string) {
+func export(mp *modeling.Mesh, format string) {
 	defer func() { recover() }() // an exporter may reject the mesh; it must still not modify it
+	m := *mp
 	var buf bytes.Buffer
 	var out io.Writer = &buf
 	switch format {
@@ -364,9 +371,14 @@ func export(m modeling.Mesh, format string) {
 	case "stl":
 		_ = stl.WriteMesh(out, m)
 	case "glb":
-		_ = gltf.WriteBinary(gltf.PolyformScene{Models: []gltf.PolyformModel{{Name: "x", Mesh: &m}}}, out)
+		_ = gltf.WriteBinary(gltf.PolyformScene{Models: []gltf.PolyformModel{{Name: "x", Mesh: mp}}}, out)
 	case "gltf":
-		_ = gltf.WriteText(gltf.PolyformScene{Models: []gltf.PolyformModel{{Name: "x", Mesh: &m}}}, out)
+		// the same live value twice in one scene (the writer instances meshes by address), through the
+		// writer object as well as through the one-call entry point
+		_ = gltf.WriteText(gltf.PolyformScene{Models: []gltf.PolyformModel{{Name: "x", Mesh: mp}, {Name: "y", Mesh: mp}}}, out)
+		if w, err := gltf.NewWriterFromScene(gltf.PolyformScene{Models: []gltf.PolyformModel{{Name: "x", Mesh: mp}}}); err == nil && w != nil {
+			_ = w.WriteGLB(out)
+		}
 	}
 }
 
